@@ -14,3 +14,5 @@ TRUSTED = ["torch.autograd.grad(..., retain_graph=False) frees exactly the buffe
 # mtl_backward: the caller's chunk size / retain flag reach the shared Jac and every task's Grad (pipeline-structure contract)
 from .C02 import mtl_structure as _mtl_structure  # noqa: E402
 CHECKS += [_mtl_structure(2)]
+
+VALIDATE_LAYOUT_PRIMS = True  # [V] the layout primitive contracts are sampled against real torch on every run
